@@ -98,6 +98,9 @@ inductive Part where
   | instr (cls member : String) (ws : List (String × Rat))
   | words (ws : List (String × Rat))
   | tword (n : Int)
+  | gcode (instr : String) (ax : Pt) (ws : List (String × Rat))           -- `format.command("G1", args)` of a motion command
+  | ainstr (cls member : String) (ax : Pt) (ws : List (String × Rat))     -- `_get_statement(member, args)` with axis words
+  | comment                                                                -- `format.comment(text)` (the text is not modelled)
 deriving DecidableEq, Repr
 
 abbrev SStmt := List Part
@@ -114,5 +117,64 @@ def fmtWords : List (String × Val) → Option (List (String × Rat))
 /-- `_get_statement(member, params)`: the member's table entry with the formatted words -/
 def getStatement (cls member : String) (ps : List (String × Val)) : Option SStmt :=
   (fmtWords ps).map fun ws => [Part.instr cls member ws]
+
+/-! ### what the translated motion commands (`Gen/MotionSrc.lean`) are written with -/
+
+/-- the `ParamsDict` of a motion command once `_process_move_params` has run: the caller's keyword parameters (the
+    `comment` entry popped, names in upper case) and the `X`/`Y`/`Z` entries, kept apart -/
+structure MP where
+  words : VParams
+  xyz : Pt
+deriving DecidableEq, Repr
+
+/-- `params.get("F")` for a name other than X, Y, Z -/
+def MP.get (p : MP) (k : String) : Option Val := lookupV p.words k
+/-- `{ **params, "X": p.x, "Y": p.y, "Z": p.z }` -/
+def MP.withXYZ (p : MP) (q : Pt) : MP := { p with xyz := q }
+/-- the dictionary as `_current_params.update` stores it (a value that is no finite number cannot get this far: the
+    statement is formatted first) -/
+def MP.toParams (p : MP) : Params :=
+  (p.words.map fun e => (e.1, e.2.fin?)) ++ [("X", p.xyz.x), ("Y", p.xyz.y), ("Z", p.xyz.z)]
+/-- `_process_move_params(None, x=…, y=…, z=…, **kwargs)`: the target point and the dictionary (transcription: plain
+    argument handling) -/
+@[reducible] def processMoveParams (pt : Pt) (kw : VParams) : Pt × MP := (pt, ⟨kw, pt⟩)
+/-- `format.command(instr, args, comment)` -/
+def fmtCommand (instr : String) (args : MP) : Option SStmt :=
+  (fmtWords args.words).map fun ws => [Part.gcode instr args.xyz ws]
+/-- `_get_statement(member, args, comment)` for a command with axis words -/
+def getStatementMP (cls member : String) (args : MP) : Option SStmt :=
+  (fmtWords args.words).map fun ws => [Part.ainstr cls member args.xyz ws]
+/-- `format.parameters(params)`: only raises or not matters (`_validate_absolute_move`) -/
+def fmtParamsOk (args : MP) : Bool := (fmtWords args.words).isSome
+
+/-- what a hook can read off the state object: the extrusion mode and the last `E` -/
+structure HookEnv where
+  erel : Bool
+  lastE : Rat
+deriving DecidableEq, Repr
+
+/-- one hook call (`Hook.apply` with the state's view made explicit) -/
+def hookApplyEnv (env : HookEnv) (h : Rat) (hk : Hook) (ps : VParams) : VParams :=
+  match hk with
+  | .record => ps
+  | .limitF m => match lookupV ps "F" with
+      | some f => if f.gtRat m then setV ps "F" (.fin m) else ps
+      | none => ps
+  | .extrude k =>
+      let len := k * h
+      setV ps "E" (.fin (if env.erel then len else len + env.lastE))
+  | .drop key => ps.filter (fun e => !(e.1 == key))
+
+/-- `for hook in self._hooks: params = hook(origin, target, params, self.state)` -/
+def runHooks (env : HookEnv) (h : Rat) (hooks : List Hook) (p : MP) : MP :=
+  { p with words := hooks.foldl (fun acc hk => hookApplyEnv env h hk acc) p.words }
+
+/-- `self.transform.apply_transform(p)` with no transform active (the builder model has no transformer: C01's premise;
+    the transformer has its own model, C04/C13) -/
+def applyTransformId (p : Pt) : Pt := p
+
+/-- `Point.__add__` / `Point.__sub__` (coordinates resolved by the callers) -/
+def ptAdd (p q : Pt) : Pt := p.add q
+def ptSub (p q : Pt) : Pt := p.sub q
 
 end GscribModel.GenPrelude
